@@ -329,9 +329,12 @@ def tz_validation(ctx):
     grid = {lo, lo + 1, hi - 1, 0, days_of(FIRST_YEAR, 1, 1) * 86400, days_of(LAST_YEAR + 1, 1, 1) * 86400 - 1}
     for t, _ in tab:
         grid |= {x for x in (t - 1, t, t + 1, t + 3600) if lo <= x < hi}
+    import random
+
+    trng = random.Random(f"C20-tz-{ctx.seed}")  # its own stream: a replay (which skips this step) must see the same strings in the same order as the run
     for _ in range(1500 if ctx.quick else 20000):
-        grid.add(ctx.rng.randrange(lo, hi))
-        grid.add(ctx.rng.randrange(days_of(1890, 1, 1) * 86400, days_of(2040, 1, 1) * 86400))
+        grid.add(trng.randrange(lo, hi))
+        grid.add(trng.randrange(days_of(1890, 1, 1) * 86400, days_of(2040, 1, 1) * 86400))
     cases = []
     for s in sorted(grid):
         loc = tz.fromutc(epoch + timedelta(seconds=s))
